@@ -8,7 +8,8 @@ Require Import PV.Proofs.NarrowBasics PV.Proofs.NarrowLift PV.Proofs.NarrowLeave
 (* ---- the guard, split ---- *)
 Lemma c02_guard_split : forall c o, c02_guard c o = true ->
   wf_obj o = true /\ cond_ok c o = true /\ multiple_inheritance o = false /\
-  subclass_bool o = false /\ promotion_negative c o = false /\ enum_class_object o = false.
+  subclass_bool o = false /\ promotion_negative c o = false /\ enum_class_object o = false /\
+  sequence_pattern_str c o = false /\ assert_promotion c o = false.
 Proof.
   intros c o H. unfold c02_guard in H.
   repeat (apply andb_true_iff in H; destruct H as [H ?]).
@@ -19,8 +20,31 @@ Qed.
 Lemma c02_guard_join : forall c o,
   wf_obj o = true -> cond_ok c o = true -> multiple_inheritance o = false ->
   subclass_bool o = false -> promotion_negative c o = false -> enum_class_object o = false ->
+  sequence_pattern_str c o = false -> assert_promotion c o = false ->
   c02_guard c o = true.
-Proof. intros c o H1 H2 H3 H4 H5 H6. unfold c02_guard. rewrite H1, H2, H3, H4, H5, H6. reflexivity. Qed.
+Proof. intros c o H1 H2 H3 H4 H5 H6 H7 H8. unfold c02_guard. rewrite H1, H2, H3, H4, H5, H6, H7, H8. reflexivity. Qed.
+
+Lemma ap_split : forall a b o,
+  (has_assert a || has_assert b) && numeric_like o = false ->
+  assert_promotion a o = false /\ assert_promotion b o = false.
+Proof.
+  intros a b o H. unfold assert_promotion.
+  destruct (numeric_like o); [|rewrite !andb_false_r; tauto].
+  rewrite andb_true_r in H. apply orb_false_iff in H. destruct H as [-> ->]. tauto.
+Qed.
+
+Lemma sps_or : forall a b o, sequence_pattern_str a o || sequence_pattern_str b o = false ->
+  sequence_pattern_str a o = false /\ sequence_pattern_str b o = false.
+Proof. intros a b o H. apply orb_false_iff in H. exact H. Qed.
+
+Lemma sps_split : forall a b o,
+  (has_seqis_false a || has_seqis_false b) && sub_art (class_of o) CStr = false ->
+  sequence_pattern_str a o = false /\ sequence_pattern_str b o = false.
+Proof.
+  intros a b o H. unfold sequence_pattern_str.
+  destruct (sub_art (class_of o) CStr); [|rewrite !andb_false_r; tauto].
+  rewrite andb_true_r in H. apply orb_false_iff in H. destruct H as [-> ->]. tauto.
+Qed.
 
 Definition P (c : cond) (pol : bool) (o : obj) : Prop :=
   holds c o = Some pol /\ c02_guard c o = true.
@@ -71,21 +95,45 @@ Proof. induction cs; simpl; [reflexivity|assumption]. Qed.
 Lemma no_vtuple_sub : forall cs, forallb (fun p => negb (is_vtuple p)) (map VSub cs) = true.
 Proof. induction cs; simpl; [reflexivity|assumption]. Qed.
 
+Lemma pat_ok_typed : forall cs, forallb pat_ok (map VTyped cs) = true.
+Proof. induction cs; simpl; [reflexivity|assumption]. Qed.
+Lemma pat_ok_sub : forall cs, forallb pat_ok (map VSub cs) = true.
+Proof. induction cs; simpl; [reflexivity|assumption]. Qed.
+
+Lemma not_seq_not_member : forall o, wf_obj o = true -> seq_elems o = None ->
+  member_b o (VGen GSeqPat) = false.
+Proof.
+  intros o Hw Hs. destruct o; simpl in Hs; try discriminate; try reflexivity.
+  - destruct c; vm_compute in Hw; try discriminate; reflexivity.
+  - destruct c; try reflexivity; destruct i; vm_compute in Hw; discriminate.
+  - destruct c; reflexivity.
+Qed.
+
+Lemma not_map_not_member : forall o, wf_obj o = true -> (forall kvs, o <> ODict kvs) ->
+  member_b o (VGen GMapPat) = false.
+Proof.
+  intros o Hw Hs. destruct o; try reflexivity.
+  - destruct c; vm_compute in Hw; try discriminate; reflexivity.
+  - destruct c; try reflexivity; destruct i; vm_compute in Hw; discriminate.
+  - destruct c; reflexivity.
+  - exfalso. apply (Hs kvs). reflexivity.
+Qed.
+
 Lemma singleton_atomic : forall l, singleton l = true -> atomic l = true.
 Proof. destruct l; simpl; intros H; try discriminate; reflexivity. Qed.
 
 (* ---- every condition kind, both polarities ---- *)
 Ltac guard_parts H :=
   let Hw := fresh "Hw" in let Hok := fresh "Hok" in let Hmi := fresh "Hmi" in
-  let Hsb := fresh "Hsb" in let Hpn := fresh "Hpn" in let Hec := fresh "Hec" in
-  destruct (c02_guard_split _ _ H) as [Hw [Hok [Hmi [Hsb [Hpn Hec]]]]].
+  let Hsb := fresh "Hsb" in let Hpn := fresh "Hpn" in let Hec := fresh "Hec" in let Hss := fresh "Hss" in let Hap := fresh "Hap" in
+  destruct (c02_guard_split _ _ H) as [Hw [Hok [Hmi [Hsb [Hpn [Hec [Hss Hap]]]]]]].
 
 Ltac weaken L := eapply ksound_weaken; [|apply L]; cbv beta; intros o [Hh Hg].
 
 Lemma cond_sound : forall c,
   asound (cond_acon c) (P c true) /\ asound (invert (cond_acon c)) (P c false).
 Proof.
-  induction c as [ |cs|cs|l|l|ls|op n|t|t|c0| |b0|c IH|a IHa b IHb|a IHa b IHb];
+  induction c as [ |cs|cs|l|l|ls|op n|t|t|c0| |b0|po|n star|pre star post|po|kps|a IHa b IHb|c1|l1|n1 b1|c IH|a IHa b IHb|a IHa b IHb];
     cbn [cond_acon invert flip negb].
   - (* truthy *)
     split; apply asound_leaf.
@@ -93,18 +141,20 @@ Proof.
     + weaken truthy_neg_sound. guard_parts Hg. simpl in Hh. injection Hh as Hh'. split; assumption.
   - (* isinstance *)
     split; apply asound_leaf.
-    + weaken (isassign_pos_sound (map VTyped cs) false). guard_parts Hg. simpl in Hh. injection Hh as Hh'.
+    + weaken (isassign_pos_sound (map VTyped cs) false (pat_ok_typed cs)). guard_parts Hg. simpl in Hh. injection Hh as Hh'.
       split; [apply isinst_member; exact Hh'|split; assumption].
-    + weaken (isassign_neg_sound (map VTyped cs) false (no_vtuple_typed cs)).
+    + weaken (isassign_neg_sound (map VTyped cs) false (no_vtuple_typed cs) (pat_ok_typed cs)).
       guard_parts Hg. simpl in Hh. injection Hh as Hh'.
-      split; [apply not_isinst_not_member; [exact Hh'|exact Hpn]|split; assumption].
+      split; [apply not_isinst_not_member; [exact Hh'|exact Hpn]|split; [assumption|split; [assumption|]]].
+      intros _ Hin. exfalso. apply in_map_iff in Hin. destruct Hin as [x [Hx _]]. discriminate.
   - (* issubclass *)
     split; apply asound_leaf.
-    + weaken (isassign_pos_sound (map VSub cs) false). guard_parts Hg. simpl in Hh. destruct o; try discriminate.
+    + weaken (isassign_pos_sound (map VSub cs) false (pat_ok_sub cs)). guard_parts Hg. simpl in Hh. destruct o; try discriminate.
       injection Hh as Hh'. split; [apply sub_member; exact Hh'|split; assumption].
-    + weaken (isassign_neg_sound (map VSub cs) false (no_vtuple_sub cs)).
+    + weaken (isassign_neg_sound (map VSub cs) false (no_vtuple_sub cs) (pat_ok_sub cs)).
       guard_parts Hg. simpl in Hh. destruct o; try discriminate.
-      injection Hh as Hh'. split; [apply not_sub_not_member; [exact Hh'|exact Hpn]|split; assumption].
+      injection Hh as Hh'. split; [apply not_sub_not_member; [exact Hh'|exact Hpn]|split; [assumption|split; [assumption|]]].
+      intros _ Hin. exfalso. apply in_map_iff in Hin. destruct Hin as [x [Hx _]]. discriminate.
   - (* is *)
     split; apply asound_leaf.
     + destruct (atomic l) eqn:Hat.
@@ -156,16 +206,26 @@ Proof.
       injection Hh as Hh'. exists k. split; [reflexivity|]. rewrite eval_neg_op, Hh'. reflexivity.
   - (* TypeIs *)
     split; apply asound_leaf.
-    + weaken (isassign_pos_sound t false). guard_parts Hg. simpl in Hh. injection Hh as Hh'.
-      split; [assumption|split; assumption].
-    + destruct (forallb (fun p => negb (is_vtuple p)) t) eqn:Hvt.
-      * weaken (isassign_neg_sound t false Hvt). guard_parts Hg. simpl in Hh. injection Hh as Hh'.
-        split; [exact Hh'|split; assumption].
+    + destruct (forallb pat_ok t) eqn:Hpk.
+      * weaken (isassign_pos_sound t false Hpk). guard_parts Hg. simpl in Hh. injection Hh as Hh'.
+        split; [assumption|split; assumption].
       * intros s o Hm [Hh Hg]. guard_parts Hg. simpl in Hok. exfalso.
         apply andb_true_iff in Hok. destruct Hok as [_ Hok].
-        assert (forallb (fun p => negb (is_vtuple p)) t = true).
+        assert (forallb pat_ok t = true).
         { apply forallb_forall. intros x Hx. rewrite forallb_forall in Hok. pose proof (Hok x Hx) as Hx'.
           destruct x; try reflexivity. discriminate. }
+        rewrite H in Hpk. discriminate.
+    + destruct (forallb (fun p => negb (is_vtuple p)) t && forallb pat_ok t) eqn:Hvt.
+      * apply andb_true_iff in Hvt. destruct Hvt as [Hvt Hpk].
+        weaken (isassign_neg_sound t false Hvt Hpk). guard_parts Hg. simpl in Hh. injection Hh as Hh'.
+        split; [exact Hh'|split; [assumption|split; [assumption|]]].
+        intros _ Hin. exfalso. simpl in Hok. apply andb_true_iff in Hok. destruct Hok as [_ Hok].
+        rewrite forallb_forall in Hok. pose proof (Hok _ Hin) as Hx. discriminate.
+      * intros s o Hm [Hh Hg]. guard_parts Hg. simpl in Hok. exfalso.
+        apply andb_true_iff in Hok. destruct Hok as [_ Hok].
+        assert (forallb (fun p => negb (is_vtuple p)) t && forallb pat_ok t = true).
+        { apply andb_true_iff. split; apply forallb_forall; intros x Hx; rewrite forallb_forall in Hok;
+            pose proof (Hok x Hx) as Hx'; destruct x; try reflexivity; discriminate. }
         rewrite H in Hvt. discriminate.
   - (* TypeGuard *)
     split; apply asound_leaf.
@@ -173,10 +233,10 @@ Proof.
     + apply valueobject_neg_sound.
   - (* case c(): *)
     split; apply asound_leaf.
-    + weaken (isassign_pos_sound [VTyped c0] true). guard_parts Hg. simpl in Hh. injection Hh as Hh'.
+    + weaken (isassign_pos_sound [VTyped c0] true eq_refl). guard_parts Hg. simpl in Hh. injection Hh as Hh'.
       split; [|split; assumption]. simpl. unfold isinst in Hh'. rewrite (sub_sub_art _ _ Hh'). reflexivity.
-    + weaken (isassign_neg_sound [VTyped c0] true eq_refl). guard_parts Hg. simpl in Hh. injection Hh as Hh'.
-      split; [|split; assumption].
+    + weaken (isassign_neg_sound [VTyped c0] true eq_refl eq_refl). guard_parts Hg. simpl in Hh. injection Hh as Hh'.
+      split; [|split; [assumption|split; [assumption|intros Hf; discriminate]]].
       simpl. rewrite orb_false_r. simpl in Hpn. unfold promoted_obj in Hpn. unfold isinst in Hh'.
       rewrite Hh' in Hpn. simpl in Hpn. rewrite andb_true_r in Hpn. exact Hpn.
   - (* case _: *)
@@ -185,6 +245,64 @@ Proof.
     + weaken always_neg_sound. simpl in Hh. discriminate.
   - (* opaque *)
     split; apply asound_null.
+  - (* sequence pattern: is a sequence *)
+    split; apply asound_leaf.
+    + weaken (isassign_pos_sound [VGen GSeqPat] po eq_refl). guard_parts Hg. simpl in Hh. injection Hh as Hh'.
+      split; [|split; assumption]. destruct o; simpl in Hh'; try discriminate; reflexivity.
+    + weaken (isassign_neg_sound [VGen GSeqPat] po eq_refl eq_refl). guard_parts Hg. simpl in Hh. injection Hh as Hh'.
+      split; [|split; [assumption|split; [assumption|]]].
+      * simpl. rewrite orb_false_r. apply (not_seq_not_member o Hw). destruct (seq_elems o); [discriminate|reflexivity].
+      * intros Hpo _. unfold sequence_pattern_str in Hss. simpl in Hss. rewrite Hpo in Hss. simpl in Hss. exact Hss.
+  - (* sequence pattern: length *)
+    split; apply asound_leaf.
+    + weaken (lenpat_sound n star true). guard_parts Hg. simpl in Hh. destruct (len_of o) as [k|]; [|discriminate].
+      injection Hh as Hh'. split; [assumption|]. exists k. split; [reflexivity|exact Hh'].
+    + weaken (lenpat_sound n star false). guard_parts Hg. simpl in Hh. destruct (len_of o) as [k|]; [|discriminate].
+      injection Hh as Hh'. split; [assumption|]. exists k. split; [reflexivity|exact Hh'].
+  - (* sequence pattern: subpatterns *)
+    split; apply asound_null.
+  - (* mapping pattern: is a mapping *)
+    split; apply asound_leaf.
+    + weaken (isassign_pos_sound [VGen GMapPat] po eq_refl). guard_parts Hg. simpl in Hh. injection Hh as Hh'.
+      split; [|split; assumption]. destruct o; simpl in Hh'; try discriminate; reflexivity.
+    + weaken (isassign_neg_sound [VGen GMapPat] po eq_refl eq_refl). guard_parts Hg. simpl in Hh. injection Hh as Hh'.
+      split; [|split; [assumption|split; [assumption|]]].
+      * simpl. rewrite orb_false_r. apply (not_map_not_member o Hw). destruct o; try reflexivity; discriminate.
+      * intros _ [Hf|[]]. discriminate.
+  - (* mapping pattern: keys *)
+    split; apply asound_null.
+  - (* parts of one pattern *)
+    destruct IHa as [IHa1 IHa2]. destruct IHb as [IHb1 IHb2]. split.
+    + apply asound_and.
+      * apply (asound_weaken _ (P a true)); [|exact IHa1].
+        intros o [Hh Hg]. guard_parts Hg. simpl in Hh, Hok, Hpn.
+        apply andb_true_iff in Hok. apply orb_false_iff in Hpn. apply sps_split in Hss. apply ap_split in Hap.
+        destruct (holds a o) as [[|]|] eqn:Ea; try discriminate.
+        split; [exact Ea|apply c02_guard_join; tauto].
+      * apply (asound_weaken _ (P b true)); [|exact IHb1].
+        intros o [Hh Hg]. guard_parts Hg. simpl in Hh, Hok, Hpn.
+        apply andb_true_iff in Hok. apply orb_false_iff in Hpn. apply sps_split in Hss. apply ap_split in Hap.
+        destruct (holds a o) as [[|]|]; try discriminate.
+        split; [exact Hh|apply c02_guard_join; tauto].
+    + apply (asound_weaken _ (fun o => P a false o \/ P b false o)); [|apply asound_or; assumption].
+      intros o [Hh Hg]. guard_parts Hg. simpl in Hh, Hok, Hpn.
+      apply andb_true_iff in Hok. apply orb_false_iff in Hpn. apply sps_split in Hss. apply ap_split in Hap.
+      destruct (holds a o) as [[|]|] eqn:Ea; try discriminate.
+      * right. split; [exact Hh|apply c02_guard_join; tauto].
+      * left. split; [exact Ea|apply c02_guard_join; tauto].
+  - (* assert_is_instance *)
+    split; apply asound_leaf.
+    + weaken (isinstance_pos_sound c1). guard_parts Hg. simpl in Hh. injection Hh as Hh'.
+      unfold assert_promotion in Hap. simpl in Hap. split; [exact Hh'|]. repeat split; assumption.
+    + weaken (isinstance_neg_sound c1). guard_parts Hg. simpl in Hh. injection Hh as Hh'.
+      unfold assert_promotion in Hap. simpl in Hap. split; [exact Hh'|]. repeat split; assumption.
+  - (* assert_is *)
+    split; apply asound_leaf.
+    + weaken (isvalue_pos_sound l1). guard_parts Hg. simpl in Hh. injection Hh as Hh'.
+      unfold assert_promotion in Hap. simpl in Hap. split; [apply obj_eqb_eq; exact Hh'|]. repeat split; assumption.
+    + weaken (isvalue_neg_sound l1). simpl in Hh. injection Hh as Hh'. exact Hh'.
+  - (* hasattr *)
+    split; apply asound_leaf; apply addannot_sound.
   - (* not *)
     destruct IH as [IH1 IH2]. split.
     + apply (asound_weaken _ (P c false)); [|exact IH2].
@@ -196,17 +314,17 @@ Proof.
     + apply asound_and.
       * apply (asound_weaken _ (P b true)); [|exact IHb1].
         intros o [Hh Hg]. guard_parts Hg. simpl in Hh, Hok, Hpn.
-        apply andb_true_iff in Hok. apply orb_false_iff in Hpn.
+        apply andb_true_iff in Hok. apply orb_false_iff in Hpn. apply sps_split in Hss. apply ap_split in Hap.
         destruct (holds a o) as [[|]|]; try discriminate.
         split; [exact Hh|apply c02_guard_join; tauto].
       * apply (asound_weaken _ (P a true)); [|exact IHa1].
         intros o [Hh Hg]. guard_parts Hg. simpl in Hh, Hok, Hpn.
-        apply andb_true_iff in Hok. apply orb_false_iff in Hpn.
+        apply andb_true_iff in Hok. apply orb_false_iff in Hpn. apply sps_split in Hss. apply ap_split in Hap.
         destruct (holds a o) as [[|]|] eqn:Ea; try discriminate.
         split; [exact Ea|apply c02_guard_join; tauto].
     + apply (asound_weaken _ (fun o => P b false o \/ P a false o)); [|apply asound_or; assumption].
       intros o [Hh Hg]. guard_parts Hg. simpl in Hh, Hok, Hpn.
-      apply andb_true_iff in Hok. apply orb_false_iff in Hpn.
+      apply andb_true_iff in Hok. apply orb_false_iff in Hpn. apply sps_split in Hss. apply ap_split in Hap.
       destruct (holds a o) as [[|]|] eqn:Ea; try discriminate.
       * left. split; [exact Hh|apply c02_guard_join; tauto].
       * right. split; [exact Ea|apply c02_guard_join; tauto].
@@ -214,19 +332,19 @@ Proof.
     destruct IHa as [IHa1 IHa2]. destruct IHb as [IHb1 IHb2]. split.
     + apply (asound_weaken _ (fun o => P a true o \/ P b true o)); [|apply asound_or; assumption].
       intros o [Hh Hg]. guard_parts Hg. simpl in Hh, Hok, Hpn.
-      apply andb_true_iff in Hok. apply orb_false_iff in Hpn.
+      apply andb_true_iff in Hok. apply orb_false_iff in Hpn. apply sps_split in Hss. apply ap_split in Hap.
       destruct (holds a o) as [[|]|] eqn:Ea; try discriminate.
       * left. split; [exact Ea|apply c02_guard_join; tauto].
       * right. split; [exact Hh|apply c02_guard_join; tauto].
     + apply asound_and.
       * apply (asound_weaken _ (P a false)); [|exact IHa2].
         intros o [Hh Hg]. guard_parts Hg. simpl in Hh, Hok, Hpn.
-        apply andb_true_iff in Hok. apply orb_false_iff in Hpn.
+        apply andb_true_iff in Hok. apply orb_false_iff in Hpn. apply sps_split in Hss. apply ap_split in Hap.
         destruct (holds a o) as [[|]|] eqn:Ea; try discriminate.
         split; [exact Ea|apply c02_guard_join; tauto].
       * apply (asound_weaken _ (P b false)); [|exact IHb2].
         intros o [Hh Hg]. guard_parts Hg. simpl in Hh, Hok, Hpn.
-        apply andb_true_iff in Hok. apply orb_false_iff in Hpn.
+        apply andb_true_iff in Hok. apply orb_false_iff in Hpn. apply sps_split in Hss. apply ap_split in Hap.
         destruct (holds a o) as [[|]|]; try discriminate.
         split; [exact Hh|apply c02_guard_join; tauto].
 Qed.
@@ -240,6 +358,25 @@ Proof.
   destruct pol.
   - apply (constrain_sound _ (P c true) o V H1 (conj Hh Hg) Hm).
   - apply (constrain_sound _ (P c false) o V H2 (conj Hh Hg) Hm).
+Qed.
+
+Lemma member_boolop_merge : forall c V o, member o V = true -> member o (boolop_merge V c) = true.
+Proof.
+  induction c; intros V o Hm; simpl; try exact Hm.
+  - apply IHc. exact Hm.
+  - rewrite member_app, Hm. reflexivity.
+  - rewrite member_app, Hm. reflexivity.
+Qed.
+
+Theorem narrow_e2e_keeps_value_partial : forall V c pol o,
+  member o V = true -> holds c o = Some pol -> c02_guard c o = true ->
+  member o (narrow_e2e V c pol) = true.
+Proof.
+  intros V c pol o Hm Hh Hg. unfold narrow_e2e. destruct (cond_sound c) as [H1 H2].
+  pose proof (member_boolop_merge c V o Hm) as Hm'.
+  destruct pol.
+  - apply (constrain_sound _ (P c true) o _ H1 (conj Hh Hg) Hm').
+  - apply (constrain_sound _ (P c false) o _ H2 (conj Hh Hg) Hm').
 Qed.
 
 (* the three refutations of the full statement, one per guard clause *)
@@ -272,6 +409,34 @@ Lemma enum_class_object_refuted :
     enum_class_object o = true /\ member o (narrow V c pol) = false.
 Proof.
   exists [plain (VKnown (OClass CIE))], (CIsSubclass [CInt]), true, (OClass CIE).
+  vm_compute. repeat split; reflexivity.
+Qed.
+
+Lemma sequence_pattern_str_refuted :
+  exists V c pol o, wf_obj o = true /\ cond_ok c o = true /\ member o V = true /\ holds c o = Some pol /\
+    sequence_pattern_str c o = true /\ member o (narrow V c pol) = false.
+Proof.
+  exists [plain (VTyped CSequence)], (CSeqIs false), false, (OStr [97%N]).
+  vm_compute. repeat split; reflexivity.
+Qed.
+
+Example match_seq_example :
+  let V := [plain (VTuple [(false, TIntE)]); plain (VTuple [(false, TIntE); (false, TStrE)]);
+            plain (VTuple [(false, TIntE); (false, TStrE); (false, TNoneE)]); plain (VTyped CStr)] in
+  let c := match_seq [EWild; EWild] true [] in
+  narrow V c true = [plain (VTuple [(false, TIntE); (false, TStrE)]);
+                     plain (VTuple [(false, TIntE); (false, TStrE); (false, TNoneE)]);
+                     plain (VGen GSeqPat)] /\
+  holds c (OTuple [LInt 1; LStr []]) = Some true /\ c02_guard c (OTuple [LInt 1; LStr []]) = true /\
+  holds c (OTuple [LInt 1]) = Some false /\ holds c (OStr [97%N]) = Some false /\
+  narrow V c false = V.
+Proof. vm_compute. repeat split; reflexivity. Qed.
+
+Lemma assert_promotion_refuted :
+  exists V c pol o, wf_obj o = true /\ cond_ok c o = true /\ member o V = true /\ holds c o = Some pol /\
+    assert_promotion c o = true /\ member o (narrow V c pol) = false.
+Proof.
+  exists [plain (VTyped CFloat)], (CAssertInst CInt), true, (OInt 1).
   vm_compute. repeat split; reflexivity.
 Qed.
 
